@@ -328,45 +328,61 @@ func clip(s string, n int) string {
 	return s
 }
 
+// LastValues holds the values the most recent in-process call returned (for
+// retention checks: a returned result must not change when later calls run).
+var LastValues []any
+
 func call(q Req, in *Inst) (dig string, errs string) {
 	var err error
+	LastValues = LastValues[:0]
+	keep := func(v any) { LastValues = append(LastValues, v) }
+	_ = keep
 	switch q.Entry {
 	case "Decode":
 		var e exif2.Exif
 		e, err = imagemeta.Decode(in)
 		dig = digest.Of(e)
+		keep(e)
 	case "DecodeTiff":
 		var e exif2.Exif
 		e, err = imagemeta.DecodeTiff(in)
 		dig = digest.Of(e)
+		keep(e)
 	case "DecodeJPEG":
 		var e exif2.Exif
 		e, err = imagemeta.DecodeJPEG(in)
 		dig = digest.Of(e)
+		keep(e)
 	case "DecodePng":
 		var e exif2.Exif
 		e, err = imagemeta.DecodePng(in)
 		dig = digest.Of(e)
+		keep(e)
 	case "DecodeCR3":
 		var e exif2.Exif
 		e, err = imagemeta.DecodeCR3(in)
 		dig = digest.Of(e)
+		keep(e)
 	case "DecodeCR2":
 		var e exif2.Exif
 		e, err = imagemeta.DecodeCR2(in)
 		dig = digest.Of(e)
+		keep(e)
 	case "DecodeHeif":
 		var e exif2.Exif
 		e, err = imagemeta.DecodeHeif(in)
 		dig = digest.Of(e)
+		keep(e)
 	case "PreviewCR3":
 		var b []byte
 		b, err = imagemeta.PreviewCR3(in)
 		dig = digest.Of(b)
+		keep(b)
 	case "ExifParse":
 		var e exif2.Exif
 		e, err = exif2.Parse(in)
 		dig = digest.Of(e)
+		keep(e)
 	case "ScanJPEG":
 		ir := exif2.NewIfdReader(exif2.Logger)
 		defer ir.Close()
@@ -424,6 +440,7 @@ func call(q Req, in *Inst) (dig string, errs string) {
 		var x xmp.XMP
 		x, err = xmp.ParseXmp(onlyReader{in})
 		dig = digest.Of(x)
+		keep(x)
 	case "ItScan":
 		var t imagetype.ImageType
 		t, err = imagetype.Scan(onlyReader{in})
